@@ -319,7 +319,8 @@ class GeoBoxBase:
             roi = numpy.s_[ty : ty + ny, tx : tx + nx]
 
         if isinstance(roi, int):
-            roi = (slice(roi, roi + 1), slice(None, None))
+            # leave the integer to roi_normalise, it knows about negative indexes
+            roi = (roi, slice(None, None))
 
         if isinstance(roi, slice):
             roi = (roi, slice(None, None))
